@@ -30,10 +30,31 @@ func RunW1(p *Profile, plan, sched *simrt.Source, trace bool) *RunOut {
 	if g.Pct(75) && ncalls < p.MinCalls {
 		ncalls = p.MinCalls
 	}
-	sc := &Scenario{Universe: rules}
+	// optionally the rule set evolves between calls: extra rules (not part of the initial text) may be
+	// added, saliences changed and rules removed through the builder's incremental operations
+	evolve := g.Pct(p.EvolvePct)
+	universe := append([]*RuleDef(nil), rules...)
+	if evolve {
+		for k := g.Range(0, 2); k > 0; k-- {
+			universe = append(universe, g.GenRule(p, len(universe)+1, 1))
+		}
+	}
+	sc := &Scenario{Universe: universe}
 	sc.Index()
+	state := modelOf(rules)
+	ver := 1
+	evolveOps := map[int]*MgmtOp{}  // before call i
+	states := make([]SetModel, ncalls) // rule set each call runs against
 	for i := 0; i < ncalls; i++ {
-		sc.Calls = append(sc.Calls, g.GenCall(p, rules, i))
+		if evolve && i > 0 && g.Pct(35) {
+			op := g.GenPoolMgmtOp(universe, state, &ver, []int{OpIncr, OpIncr, OpIncr, OpRemove}, 0)
+			if !(op.Kind == OpRemove && len(op.Names) == 0) {
+				evolveOps[i] = op
+				state = state.apply(op)
+			}
+		}
+		states[i] = state
+		sc.Calls = append(sc.Calls, g.GenCall(p, withVersion(universe, state), i))
 	}
 	for _, c := range sc.Calls {
 		for id, pl := range c.Plan {
@@ -48,8 +69,14 @@ func RunW1(p *Profile, plan, sched *simrt.Source, trace bool) *RunOut {
 		for _, r := range order {
 			out = append(out, "rule "+r.String())
 		}
+		for _, r := range universe[len(rules):] {
+			out = append(out, "extra rule (added later by an incremental build) "+r.String())
+		}
 		out = append(out, "--- rule text ---", text, "--- calls ---")
-		for _, c := range sc.Calls {
+		for i, c := range sc.Calls {
+			if op := evolveOps[i]; op != nil {
+				out = append(out, fmt.Sprintf("builder op before call %d: %s => %v", i, op, states[i]))
+			}
 			out = append(out, c.String())
 		}
 		return out
@@ -58,12 +85,20 @@ func RunW1(p *Profile, plan, sched *simrt.Source, trace bool) *RunOut {
 	rb := builder.NewRuleBuilder(dc)
 	eng := engine.NewGengine()
 	var buildErr error
+	evolveErr := map[int]error{}
 	run := simrt.NewRun(cfg, sched)
 	run.Execute(func() {
 		if buildErr = rb.BuildRuleFromString(text); buildErr != nil {
 			return
 		}
-		for _, c := range sc.Calls {
+		for i, c := range sc.Calls {
+			if op := evolveOps[i]; op != nil {
+				if op.Kind == OpIncr {
+					evolveErr[i] = rb.BuildRuleWithIncremental(op.Text)
+				} else {
+					evolveErr[i] = rb.RemoveRules(op.Names)
+				}
+			}
 			InvokeEngine(sc, eng, rb, c)
 		}
 	})
@@ -83,10 +118,21 @@ func RunW1(p *Profile, plan, sched *simrt.Source, trace bool) *RunOut {
 		return o
 	}
 	views := BuildViews(run, sc.Calls)
-	rs := ruleSetOf(rules)
 	var all []Violation
-	for _, c := range sc.Calls {
-		all = append(all, CheckCall(sc, views[c.Idx], rs, 0)...)
+	for i, c := range sc.Calls {
+		if op := evolveOps[i]; op != nil {
+			o.count("mgmt_ops/"+opKindNames[op.Kind], 1)
+			if e := evolveErr[i]; e != nil {
+				all = append(all, Violation{Clause: "valid-operation-rejected", Method: opKindNames[op.Kind], Msg: fmt.Sprintf("builder op before call %d (%s) failed: %v", i, op, e)})
+			}
+		}
+		all = append(all, CheckCall(sc, views[c.Idx], states[i].ruleSet(), 0)...)
+		for _, x := range views[c.Idx].Execs {
+			if m, ok := states[i][x.Rule]; ok && m.Ver != x.Ver {
+				all = append(all, Violation{Clause: "ruleset-wrong-version", Method: MethodNames[c.Method], Call: c.Idx,
+					Msg: fmt.Sprintf("%s: rule %d ran as v%d, the builder's denoted set %v has v%d", c, x.Rule, x.Ver, states[i], m.Ver)})
+			}
+		}
 	}
 	fl, fm := inFlightCalls(views)
 	for _, v := range runLevel(run, fl) {
